@@ -23,7 +23,7 @@ def run(idx, rep, tier):
     nesterov.r_dispatch(idx, rep)
     nesterov.r_dtree(idx, rep)
     nesterov.r_tuplerole(idx, rep, floor=6)
-    loops.r_loop(idx, rep, MODS, floor=10)
+    loops.r_loop(idx, rep, MODS, floor=6)
     ericson.r_ericson(idx, rep)
     nesterov.r_mainloop(idx, rep)
     misc2.r_dupcond(idx, rep, [m.name for m in idx.lib_modules()], floor=3)
